@@ -6,6 +6,7 @@ use vstd::string::*;
 use vstd::std_specs::cmp::*;
 use std::cmp::Ordering;
 use std::time::Duration;
+use std::sync::Arc;
 
 verus! {
 
@@ -261,6 +262,10 @@ pub mod collect_ax {
         ensures #[trigger] <Result<Vec<T>, E> as vstd::std_specs::iter::FromIteratorSpec<Result<T, E>>>::from_iter_ensures(items, s) ==> all_or_nothing(items, s);
 }
 pub use collect_ax::all_or_nothing;
+/// every (ack id, seconds) pair of a request is well-formed
+pub open spec fn pairs_ok(ids: Seq<String>, secs: Seq<i32>) -> bool {
+    forall|i: int| #![trigger ids[i]] #![trigger secs[i]] 0 <= i < imin(ids.len() as int, secs.len() as int) ==> parsed::<u64>(ids[i]@).is_some() && secs[i] >= 0
+}
 //@fn src/api/parser.rs parse_deadline_modifications tags=C05
 //@ ret r
 //@ requires epoch().v() <= now.v() <= now_max()
@@ -270,9 +275,112 @@ pub use collect_ax::all_or_nothing;
 //@ # negative seconds value fails the whole request, and the only failure is INVALID_ARGUMENT
 //@ ensures[C05,C17] (match r { Ok(v) => forall|i: int| #![trigger v@[i]] 0 <= i < v@.len() ==> mod_pair_ok(now.v(), ack_ids@[i]@, modify_deadline_seconds@[i], Ok::<DeadlineModification, Status>(v@[i])) && parsed::<u64>(ack_ids@[i]@).is_some() && modify_deadline_seconds@[i] >= 0, Err(_) => true })
 //@ ensures[C05,C17] r.is_err() ==> err_code(r) == Some(Code::InvalidArgument)
+//@ # ... and a request whose pairs are all well-formed is not rejected
+//@ ensures[C05] pairs_ok(ack_ids@, modify_deadline_seconds@) ==> r.is_ok()
 //@ closure 1 ret m: Result<DeadlineModification, Status>
 //@ closure 1 ensures mod_pair_ok(now.v(), $1.0@, *$1.1, m)
 //@end
+
+// ======================================================================================
+// src/api/subscriber.rs: the unary Acknowledge and ModifyAckDeadline handlers (async fn, whole bodies)
+pub mod handlers {
+    use super::*;
+    broadcast use {tok_ax::tok_injective, tok_ax::tok_nonempty, collect_ax::collect_result, vstd::std_specs::iter::group_iter_axioms};
+//@item src/subscriptions/errors.rs enum AcknowledgeMessagesError drop-derive=thiserror::Error strip-attr=error
+//@item src/subscriptions/errors.rs enum ModifyDeadlineError drop-derive=thiserror::Error strip-attr=error
+//@item src/subscriptions/errors.rs enum GetSubscriptionError drop-derive=thiserror::Error strip-attr=error
+    // ---- TRUSTED (A-STUB): tonic's Request / Response wrappers, the tracing span, the prost request structs
+    pub struct Request<T> { pub m: T }
+    impl<T> Request<T> { pub fn get_ref(&self) -> (r: &T) ensures *r == self.m { &self.m } }
+    pub struct Response<T> { pub m: T }
+    impl<T> Response<T> { pub fn new(m: T) -> (r: Self) ensures r.m == m { Response { m } } }
+    pub struct ActivitySpan { pub x: u8 }
+    impl ActivitySpan { pub fn start() -> Self { ActivitySpan { x: 0 } } }
+    pub struct AcknowledgeRequest { pub subscription: String, pub ack_ids: Vec<String> }
+    pub struct ModifyAckDeadlineRequest { pub subscription: String, pub ack_ids: Vec<String>, pub ack_deadline_seconds: i32 }
+    pub struct SubscriptionName { pub x: u64 }
+    pub struct Subscription { pub x: u64 }
+    pub struct SubscriptionManager { pub x: u64 }
+    pub mod glue {
+        use super::*;
+        /// the subscription name a string parses to (SubscriptionName::try_parse, proved in bundle B3)
+        pub uninterp spec fn parsed_name(s: Seq<char>) -> Option<SubscriptionName>;
+        /// the manager's lookup (map operations proved in bundle B4, NOT_FOUND mapping in bundle B6)
+        pub uninterp spec fn lookup(m: SubscriptionManager, name: SubscriptionName) -> Result<Arc<Subscription>, GetSubscriptionError>;
+        /// one `acknowledge_messages(ids)` / `modify_ack_deadlines(mods)` call on the handle (handled by the actor, bundle B1)
+        pub uninterp spec fn acked(s: Subscription, ids: Seq<AckId>) -> bool;
+        pub uninterp spec fn modified(s: Subscription, mods: Seq<DeadlineModification>) -> bool;
+    }
+    pub use glue::{parsed_name, lookup, acked, modified};
+    pub mod parser {
+        use super::*;
+        pub(crate) use super::super::{parse_ack_id, parse_deadline_modifications};
+        // assumed here, proved in bundle B3: INVALID_ARGUMENT exactly when the name does not parse
+        #[verifier::external_body]
+        pub fn parse_subscription_name(raw_value: &str) -> (r: Result<SubscriptionName, Status>)
+            ensures (match parsed_name(raw_value@) { Some(n) => r == Ok::<SubscriptionName, Status>(n), None => err_code(r) == Some(Code::InvalidArgument) })
+        { unimplemented!() }
+    }
+    // assumed here, proved in bundle B6 against the same contract
+    #[verifier::external_body]
+    pub fn get_subscription(subscription_manager: &Arc<SubscriptionManager>, subscription_name: &SubscriptionName) -> (r: Result<Arc<Subscription>, Status>)
+        ensures (match lookup(**subscription_manager, *subscription_name) { Ok(s) => r == Ok::<Arc<Subscription>, Status>(s), Err(GetSubscriptionError::DoesNotExist) => err_code(r) == Some(Code::NotFound), Err(GetSubscriptionError::Closed) => err_code(r) == Some(Code::Internal) })
+    { unimplemented!() }
+    impl Subscription {
+        /// TRUSTED (A-GLUE): the handle forwards the request to the subscription actor and returns its reply
+        #[verifier::external_body]
+        pub async fn acknowledge_messages(&self, ack_ids: Vec<AckId>) -> (r: Result<(), AcknowledgeMessagesError>)
+            ensures r.is_ok() ==> acked(*self, ack_ids@)
+        { unimplemented!() }
+        #[verifier::external_body]
+        pub async fn modify_ack_deadlines(&self, deadline_modifications: Vec<DeadlineModification>) -> (r: Result<(), ModifyDeadlineError>)
+            ensures r.is_ok() ==> modified(*self, deadline_modifications@)
+        { unimplemented!() }
+    }
+    pub struct SubscriberService { pub subscription_manager: Arc<SubscriptionManager> }
+    /// every ack id of the request is well-formed
+    pub open spec fn ids_ok(ids: Seq<String>) -> bool { forall|i: int| #![trigger ids[i]] 0 <= i < ids.len() ==> parsed::<u64>(ids[i]@).is_some() }
+    /// one modification per ack id, in order, each the per-pair result for the request's one seconds value at `now`
+    pub open spec fn mods_ok(now: int, ids: Seq<String>, secs: i32, mods: Seq<DeadlineModification>) -> bool {
+        &&& mods.len() == ids.len()
+        &&& epoch().v() <= now <= now_max()
+        &&& forall|i: int| #![trigger mods[i]] 0 <= i < mods.len() ==> mod_pair_ok(now, ids[i]@, secs, Ok::<DeadlineModification, Status>(mods[i]))
+    }
+    /// C05 at the RPC surface: every ack id is well-formed and the one seconds value is not negative
+    pub open spec fn modack_ok(ids: Seq<String>, secs: i32) -> bool { ids_ok(ids) && (ids.len() > 0 ==> secs >= 0) }
+    impl SubscriberService {
+//@fn src/api/subscriber.rs SubscriberService::acknowledge tags=C02
+//@ ret r
+//@ # C17: one malformed ack id or a malformed name: INVALID_ARGUMENT; C10: an absent subscription: NOT_FOUND
+//@ ensures[C17] !ids_ok(request.m.ack_ids@) || parsed_name(request.m.subscription@).is_none() ==> err_code(r) == Some(Code::InvalidArgument)
+//@ ensures[C10] (match parsed_name(request.m.subscription@) { Some(n) => ids_ok(request.m.ack_ids@) && (lookup(*self.subscription_manager, n) matches Err(GetSubscriptionError::DoesNotExist)) ==> err_code(r) == Some(Code::NotFound), None => true })
+//@ # C02: OK means that the subscription the name denotes was handed exactly the ack ids of the request, in order
+//@ ensures[C10] r.is_ok() ==> parsed_name(request.m.subscription@).is_some() && lookup(*self.subscription_manager, parsed_name(request.m.subscription@).unwrap()).is_ok()
+//@ ensures[C02] r.is_ok() && request.m.ack_ids@.len() > 0 ==> exists|s: Arc<Subscription>, ids: Seq<AckId>| #[trigger] acked(*s, ids) && lookup(*self.subscription_manager, parsed_name(request.m.subscription@).unwrap()) == Ok::<Arc<Subscription>, GetSubscriptionError>(s) && ids.len() == request.m.ack_ids@.len() && forall|i: int| #![trigger ids[i]] 0 <= i < ids.len() ==> ids[i].v() == parsed::<u64>(request.m.ack_ids@[i]@).unwrap()
+//@ proof-after /\.collect::<Result<Vec<_>, Status>>\(\)\?;/ { assert forall|i: int| 0 <= i < request.ack_ids@.len() implies parsed::<u64>((#[trigger] request.ack_ids@[i])@).is_some() by { let x = ack_ids@[i]; } }
+//@ closure 1 ret a: Result<AckId, Status>
+//@ closure 1 ensures (match a { Ok(x) => parsed::<u64>($1@).is_some() && x.v() == parsed::<u64>($1@).unwrap(), Err(e) => parsed::<u64>($1@).is_none() && e.code == Code::InvalidArgument })
+//@ closure 2 ret st: Status
+//@ closure 2 ensures st.code == Code::Internal
+//@end
+
+//@fn src/api/subscriber.rs SubscriberService::modify_ack_deadline tags=C05
+//@ ret r
+//@ # C05 / C17: a malformed ack id, a negative seconds value (with at least one ack id) or a malformed name: INVALID_ARGUMENT
+//@ ensures[C05,C17] !modack_ok(request.m.ack_ids@, request.m.ack_deadline_seconds) || parsed_name(request.m.subscription@).is_none() ==> err_code(r) == Some(Code::InvalidArgument)
+//@ ensures[C10] (match parsed_name(request.m.subscription@) { Some(n) => modack_ok(request.m.ack_ids@, request.m.ack_deadline_seconds) && (lookup(*self.subscription_manager, n) matches Err(GetSubscriptionError::DoesNotExist)) ==> err_code(r) == Some(Code::NotFound), None => true })
+//@ # C05: OK means that the subscription the name denotes was handed one modification per ack id of the request, in
+//@ # order, each with the request's seconds value applied as the per-pair rule says (deadline = now + N, N = 0 nack)
+//@ ensures[C10] r.is_ok() ==> parsed_name(request.m.subscription@).is_some() && lookup(*self.subscription_manager, parsed_name(request.m.subscription@).unwrap()).is_ok()
+//@ ensures[C05] r.is_ok() && request.m.ack_ids@.len() > 0 ==> exists|s: Arc<Subscription>, mods: Seq<DeadlineModification>, now: int| #![trigger modified(*s, mods), mods_ok(now, request.m.ack_ids@, request.m.ack_deadline_seconds, mods)] modified(*s, mods) && lookup(*self.subscription_manager, parsed_name(request.m.subscription@).unwrap()) == Ok::<Arc<Subscription>, GetSubscriptionError>(s) && mods_ok(now, request.m.ack_ids@, request.m.ack_deadline_seconds, mods)
+//@ proof-after /^\s*\)\?;\s*$/ { assert forall|i: int| 0 <= i < request.ack_ids@.len() implies parsed::<u64>((#[trigger] request.ack_ids@[i])@).is_some() by { let x = deadline_modifications@[i]; } if request.ack_ids@.len() > 0 { let x = deadline_modifications@[0]; } assert(modack_ok(request.ack_ids@, request.ack_deadline_seconds)); assert(mods_ok(now.v(), request.ack_ids@, request.ack_deadline_seconds, deadline_modifications@)); }
+//@ closure 1 ret sec: i32
+//@ closure 1 ensures sec == request.ack_deadline_seconds
+//@ closure 2 ret st: Status
+//@ closure 2 ensures st.code == Code::Internal
+//@end
+    }
+}
 
 // ======================================================================================
 // regions of src/api/subscriber.rs (statements lifted out of async handlers, see DESIGN §4)
